@@ -81,7 +81,8 @@ func runWLReps(em *Emitter, id int, sc Scenario, seed int64) {
 			in0 = append(in0, base[rng.Intn(len(base))])
 		}
 		rng.Shuffle(len(in0), func(i, j int) { in0[i], in0[j] = in0[j], in0[i] })
-		if rep%50 == 49 && len(in0) > 0 && len(in0) < 100 { // now and then other content in the same buffer
+		novel := rep%50 == 49 && len(in0) > 0 && len(in0) < 100
+		if novel { // now and then other content in the same buffer
 			in0[0] = fmt.Sprintf("zq%dx", rep)
 		}
 		in := bufs[len(in0)]
@@ -96,6 +97,9 @@ func runWLReps(em *Emitter, id int, sc Scenario, seed int64) {
 			FailRateOne: sc.FailRateOne, Den: []int{}, DenInt: -1, SepKind: "char", Grp: id + 1}
 		for _, s := range in {
 			cell.Titles = append(cell.Titles, CPs(strings.Title(s)))
+		}
+		if novel {
+			cell.Grp = 0 // another multiset: not comparable with the other constructions of this scenario
 		}
 		switch w.Sep {
 		case "", "char":
